@@ -147,7 +147,7 @@ func genRenderCase(rng *rand.Rand) *renderCase {
 		}
 		c.JSONVal = b
 		if rng.Intn(6) == 0 {
-			c.JSONGo = []string{"nil-slice", "nil-map", "nil-ptr", "empty-slice", "nil-in-struct"}[rng.Intn(5)]
+			c.JSONGo = []string{"nil-slice", "nil-map", "nil-ptr", "empty-slice", "nil-in-struct", "raw-message", "raw-message-ptr", "marshaler-with-spaces"}[rng.Intn(8)]
 		} else if rng.Intn(12) == 0 {
 			c.ErrValue = true
 			c.JSONVal, _ = json.Marshal(c17Payload{Code: rng.Intn(600), Message: renderStrings[rng.Intn(len(renderStrings))], Tags: []string{"a", "<b>"}[:rng.Intn(3)]})
@@ -311,6 +311,11 @@ func (v c17Serial) MarshalXML(e *xml.Encoder, start xml.StartElement) error {
 	return e.EncodeElement(*v.n, start)
 }
 
+// c17Spacey's MarshalJSON returns valid JSON with white space the encoder compacts
+type c17Spacey struct{}
+
+func (c17Spacey) MarshalJSON() ([]byte, error) { return []byte(`{ "k" : [ 1 , 2 ] , "h": "<>" }`), nil }
+
 type c17Holder struct {
 	Tags []string          `json:"tags"`
 	Meta map[string]string `json:"meta"`
@@ -328,6 +333,13 @@ func c17GoValue(kind string) interface{} {
 		return []string{}
 	case "nil-in-struct":
 		return c17Holder{}
+	case "raw-message": // valid JSON with insignificant white space and characters the encoder escapes
+		return json.RawMessage(`{"a": [1, 2,  "<b>&"],   "c":{ "d":null}}`)
+	case "raw-message-ptr":
+		m := json.RawMessage(`[ 1,2 , {"x": "</script>"} ]`)
+		return &m
+	case "marshaler-with-spaces":
+		return c17Spacey{}
 	}
 	return nil
 }
